@@ -299,6 +299,7 @@ type e2p struct {
 	Foreign    bool     `json:"foreign,omitempty"`
 	Tolerant   bool     `json:"tolerant,omitempty"`
 	Patches    []string `json:"patches,omitempty"`
+	Readers    int      `json:"readers,omitempty"`
 }
 
 const assumeE2 = "whole system in one testing/synctest bubble per execution: real OrdaService, real server/mongodb over mongo-driver 1.10.1 speaking the wire protocol to the in-memory mongofake, real Notifier over an MQTT stand-in, real SDK clients over an in-process RPC stub (protobuf round trip per message); virtual time; background goroutines drained after every action"
@@ -350,7 +351,7 @@ func init() {
 	plans["C06"] = func(tier string) Plan {
 		p := Plan{ID: "C06", Level: "model_checking",
 			Rule: "breadth-first search over request histories of 1-3 real clients: pushes of 0..n operations (batch = local operations since the last sync), empty pushes, verbatim re-sending of a client's " +
-				"previous request (acknowledged operations pushed again), pushes after others advanced the log; after EVERY request on the database dump: sseq 1..n gapless with _id = duid:sseq, " +
+				"previous request (acknowledged operations pushed again), pushes after others advanced the log, read-only pulls (option bit, no operations) from checkpoint 0 and from the end of the log, which must return exactly the stored suffix; after EVERY request on the database dump: sseq 1..n gapless with _id = duid:sseq, " +
 				"n = recorded end of log, per-client seq increasing and contiguous from 1, every acknowledged operation stored exactly as issued, every stored checkpoint within what is stored",
 			Assume: []string{assumeE2, assumeInstr}}
 		o := []string{"log", "converge"}
@@ -360,6 +361,7 @@ func init() {
 				e2run("counter-2c-joined-d5", e2p{Clients: 2, Type: "counter", Prefix: "joined", Resend: true, Oracles: o}, 5, 0),
 				e2run("list-2c-joined-d4", e2p{Clients: 2, Type: "list", Prefix: "joined", Resend: true, Oracles: o}, 4, 0),
 				e2run("counter-1c-d5", e2p{Clients: 1, Type: "counter", Resend: true, Oracles: o}, 5, 0),
+				e2run("counter-2c-joined-readers-d4", e2p{Clients: 2, Type: "counter", Prefix: "joined", Readers: 2, Alpha: "one", Oracles: o}, 4, 0),
 				e2run("counter-2c-joined-lostresponse-d5", e2p{Clients: 2, Type: "counter", Prefix: "joined", SyncFaults: []string{"drop", "dup"}, MaxFault: 2, Alpha: "one", Oracles: o}, 5, 0),
 			}
 		} else {
@@ -369,6 +371,8 @@ func init() {
 				e2run("counter-3c-joined-d6", e2p{Clients: 3, Type: "counter", Prefix: "joined", Resend: true, Oracles: o}, 6, 300000),
 				e2run("list-2c-joined-d6", e2p{Clients: 2, Type: "list", Prefix: "joined", Resend: true, Oracles: o}, 6, 300000),
 				e2run("map-2c-entry-d6", e2p{Clients: 2, Type: "map", Resend: true, Oracles: o}, 6, 300000),
+				e2run("counter-2c-joined-readers-d6", e2p{Clients: 2, Type: "counter", Prefix: "joined", Readers: 2, Alpha: "one", Oracles: o}, 6, 300000),
+				e2run("list-2c-joined-readers-d5", e2p{Clients: 2, Type: "list", Prefix: "joined", Readers: 2, Oracles: o}, 5, 300000),
 				e2run("counter-6c-joined-d4", e2p{Clients: 6, Type: "counter", Prefix: "joined", Resend: true, Oracles: o}, 4, 300000),
 				e2run("counter-2c-joined-lostresponse-d7", e2p{Clients: 2, Type: "counter", Prefix: "joined", SyncFaults: []string{"drop", "dup"}, MaxFault: 3, Alpha: "one", Oracles: o}, 7, 300000),
 				e2run("list-2c-joined-lostresponse-d5", e2p{Clients: 2, Type: "list", Prefix: "joined", SyncFaults: []string{"drop", "dup"}, MaxFault: 2, Oracles: o}, 5, 300000),
@@ -466,19 +470,19 @@ func init() {
 		p := Plan{ID: "C16", Level: "exploration",
 			Rule: "from a base scenario (two clients subscribed to two keys, two unpushed operations) every single mutation of a valid PushPullMessage is sent to the real service: unknown / empty / foreign " +
 				"client, collection, datatype id and key, every option-bit combination 0x01..0x7f, checkpoints zero / ahead / swapped / missing, operation lists with gaps, repeats, reordering, foreign " +
-				"client ids, stale sequence numbers, wrong operation type, garbage body, changed type and era, no pack, two packs of one key (thorough: pairs of mutations); oracle: the call returns " +
+				"client ids, stale sequence numbers, wrong operation type, garbage body, changed type and era, no pack, two packs of one key (quick: single mutations plus 11 base mutations combined with every other one; thorough: ALL ordered pairs for the counter, base pairs for list and document); oracle: the call returns " +
 				"within 60 virtual seconds, the worker survives, a refusal leaves the dump unchanged, the log invariants hold, an SDK client applying the response reports errors through its handler " +
 				"without panicking, and afterwards both correct clients continue and converge; distinct non-trivial = distinct (mutation, outcome class)",
 			Assume: []string{assumeE2, assumeInstr}}
 		if tier == "quick" {
 			p.BudgetS = 480
-			p.Runs = []Run{{Name: "mutations-counter", Check: "C16", Kind: "mutreq", Cases: true, Params: map[string]interface{}{"type": "counter"}, Shards: 16}}
+			p.Runs = []Run{{Name: "mutation-base-pairs-counter", Check: "C16", Kind: "mutreq", Cases: true, Params: map[string]interface{}{"type": "counter", "pairs": "base"}, Shards: 16}}
 		} else {
 			p.BudgetS = 3300
 			p.Runs = []Run{
-				{Name: "mutation-pairs-counter", Check: "C16", Kind: "mutreq", Cases: true, Params: map[string]interface{}{"type": "counter", "pairs": true}, Shards: 16},
-				{Name: "mutations-list", Check: "C16", Kind: "mutreq", Cases: true, Params: map[string]interface{}{"type": "list"}, Shards: 16},
-				{Name: "mutations-doc", Check: "C16", Kind: "mutreq", Cases: true, Params: map[string]interface{}{"type": "doc"}, Shards: 16},
+				{Name: "mutation-all-pairs-counter", Check: "C16", Kind: "mutreq", Cases: true, Params: map[string]interface{}{"type": "counter", "pairs": "all"}, Shards: 16},
+				{Name: "mutation-base-pairs-list", Check: "C16", Kind: "mutreq", Cases: true, Params: map[string]interface{}{"type": "list", "pairs": "base"}, Shards: 16},
+				{Name: "mutation-base-pairs-doc", Check: "C16", Kind: "mutreq", Cases: true, Params: map[string]interface{}{"type": "doc", "pairs": "base"}, Shards: 16},
 			}
 		}
 		return p
@@ -544,18 +548,20 @@ func init() {
 func init() {
 	plans["C08"] = func(tier string) Plan {
 		p := Plan{ID: "C08", Level: "fault_enumeration",
-			Rule: "three scripted scenarios (create / subscribe / push / pull-only / concurrent pushes, counter and list) are first run fault-free to count the K database commands they issue (including the background " +
-				"notification + snapshot update); then for EVERY k in 1..K the k-th command is made to fail, and in a second pass to be the last command before the server dies (connections closed, in-flight " +
-				"request answered with a transport error, new service + lock registry over the surviving database); thorough adds pairs k<k2<=k+12; oracle: no hang under virtual time, no worker death, " +
-				"no client panic, and after fault-free retries by all clients: log invariants, every acknowledged operation stored, every issued operation stored exactly once, clients = server rebuild = " +
-				"C02 reference of the log, stored snapshots and user documents equal the log replay; distinct non-trivial = distinct (scenario, fault kind, outcome class)",
-			Assume: []string{assumeE2, assumeInstr, "a dying server is modelled by the database refusing everything after command k plus a transport error for the in-flight call"}}
+			Rule: "five scripted scenarios (create / subscribe / subscribe-or-create / push / pull-only / concurrent pushes / a transaction; counter, list, document, map with 3 clients) are first run fault-free to count the K database " +
+				"commands they issue (including the background notification + snapshot update); a fault plan is a sequence of faults, each striking the a-th command counted from the previous strike (for a crash: from the restart): " +
+				"fail = the command is answered with an error and not executed; crash = executed, reply lost, server dies; crashb = the server dies before executing it (connections closed, in-flight request answered with a " +
+				"transport error, a new service + lock registry start over the surviving database while the dead process can reach nothing any more). Enumerated: EVERY single fault (3 kinds x every k in 1..K), EVERY pair of " +
+				"kinds (9) x every k x every second offset within the window, and every triple of equal kinds within the triple window; oracle: no hang under virtual time, no worker death, no client panic, the server restarts, " +
+				"and after fault-free retries by all clients: log invariants, every acknowledged operation stored, every issued operation stored exactly once, clients = server rebuild = C02 reference of the log, stored snapshots " +
+				"and user documents equal the log replay; distinct non-trivial = distinct (scenario, fault kinds, outcome class)",
+			Assume: []string{assumeE2, assumeInstr, "a dying server is modelled by the database refusing everything after the fatal command plus a transport error for the in-flight call; goroutines of the dead process keep running but every database command of theirs fails"}}
 		if tier == "quick" {
 			p.BudgetS = 600
-			p.Runs = []Run{{Name: "single-faults", Check: "C08", Kind: "dbfault", Cases: true, Params: map[string]interface{}{}, Shards: 16}}
+			p.Runs = []Run{{Name: "singles-pairs-w6-triples-w3", Check: "C08", Kind: "dbfault", Cases: true, Params: map[string]interface{}{"win2": 6, "win3": 3}, Shards: 16}}
 		} else {
 			p.BudgetS = 3300
-			p.Runs = []Run{{Name: "single-and-pair-faults", Check: "C08", Kind: "dbfault", Cases: true, Params: map[string]interface{}{"pairs": true}, Shards: 16}}
+			p.Runs = []Run{{Name: "singles-pairs-all-triples-w10", Check: "C08", Kind: "dbfault", Cases: true, Params: map[string]interface{}{"win2": 64, "win3": 10}, Shards: 16}}
 		}
 		return p
 	}
@@ -701,12 +707,22 @@ func init() {
 	plans["C20"] = func(tier string) Plan {
 		p := Plan{ID: "C20", Level: "model_checking",
 			Rule: "stateless schedule search over 2-3 caller goroutines (a plain call, a Transaction of two calls with reads, two plain calls) on ONE real client datatype (counter, list), plus a goroutine applying a remote " +
-				"pack and one calling CreatePushPullPack; scheduling points = the four shim gates around the datatype mutex (before/after Lock and Unlock) and goroutine starts; all schedules up to the deviation bound; " +
+				"pack and one calling CreatePushPullPack; the *-positional runs use a list / a document array of three elements on which the goroutines delete and insert BY POSITION while the others (and a remote delete) change its length; the sync-* runs add one or two goroutines running the SDK's sync step (CreatePushPullPack -> a harness-played server that accepts per-client sequence order, drops duplicates, refuses gaps and partial transaction units -> ApplyPushPullPack; two of them = a notification-triggered sync overlapping a push-triggered one) next to the callers, and close with sequential syncs: everything issued is in the server log exactly once in order, nothing stays pending, both replicas agree; scheduling points = the four shim gates around the datatype mutexes (before/after Lock and Unlock) and goroutine starts, and in the *-stmt runs additionally every statement of transaction.go and wired.go that touches mutable state of the datatype, and every return statement (points inserted by tools/instr, see instrumentation.stmt_points); all schedules up to the deviation bound; " +
 				"oracle: no panic, no deadlock (no progress under virtual time), no lost update, every issued operation queued exactly once in sequence order with increasing lamport, the transaction unit contiguous, " +
-				"reads inside the body see only its own effects; supplementary free-running -race pass",
-			Assume: []string{assumeE1, assumeSched, assumeInstr, "preemption between two plain field accesses without an intervening synchronization operation is not enumerated"}}
+				"reads inside the body see only its own effects; positional runs: a call succeeds or is refused, no element is returned by two successful deletes, final content = initial + inserted - deleted; " +
+				"supplementary free-running -race pass of the same bodies (sampling; reported separately, not part of the exhaustive counts)",
+			Assume: []string{assumeE1, assumeSched, assumeInstr, "preemption inside one statement (between two plain field accesses of the same statement), and between statements outside transaction.go without an intervening synchronization operation, is not enumerated"}}
 		mk := func(name string, bound int, a map[string]interface{}) Run {
 			return Run{Name: name, Check: "SCHED", Kind: "sched", Shards: 16, Depth: bound, Params: map[string]interface{}{"scenario": "c20", "bound": bound, "args": a}}
+		}
+		mkd := func(name string, bound int, a map[string]interface{}) Run {
+			return Run{Name: name, Check: "SCHED", Kind: "sched", Shards: 16, Depth: bound, Params: map[string]interface{}{"scenario": "c20del", "bound": bound, "args": a}}
+		}
+		mks := func(name string, bound int, a map[string]interface{}) Run {
+			return Run{Name: name, Check: "SCHED", Kind: "sched", Shards: 16, Depth: bound, Params: map[string]interface{}{"scenario": "c20sync", "bound": bound, "max_points": 2000, "args": a}}
+		}
+		race := func(name string, reps int, a map[string]interface{}) Run {
+			return Run{Name: name, Check: "SCHED", Kind: "racefree", Shards: 4, Race: true, Supplementary: true, Params: map[string]interface{}{"scenario": "c20", "reps": reps, "args": a}}
 		}
 		if tier == "quick" {
 			p.BudgetS = 600
@@ -714,6 +730,13 @@ func init() {
 				mk("counter-2t-b5", 5, map[string]interface{}{"type": "counter", "threads": 2}),
 				mk("counter-3t-remote-pack-b3", 3, map[string]interface{}{"type": "counter", "threads": 3, "remote": true, "packer": true}),
 				mk("list-3t-remote-b3", 3, map[string]interface{}{"type": "list", "threads": 3, "remote": true}),
+				mk("counter-2t-stmt-b3", 3, map[string]interface{}{"type": "counter", "threads": 2, "stmt": true}),
+				mk("list-2t-remote-stmt-b2", 2, map[string]interface{}{"type": "list", "threads": 2, "remote": true, "stmt": true}),
+				mkd("list-positional-3t-remote-b3", 3, map[string]interface{}{"type": "list", "threads": 3, "remote": true}),
+				mkd("docarr-positional-3t-remote-b3", 3, map[string]interface{}{"type": "docarr", "threads": 3, "remote": true}),
+				mks("sync-counter-2u-2s-b3", 3, map[string]interface{}{"type": "counter", "users": 2, "syncs": 2, "pending": 1}),
+				mks("sync-counter-2u-1s-stmt-b2", 2, map[string]interface{}{"type": "counter", "users": 2, "syncs": 1, "pending": 1, "stmt": true}),
+				mks("sync-list-1u-2s-stmt-b2", 2, map[string]interface{}{"type": "list", "users": 1, "syncs": 2, "pending": 1, "stmt": true}),
 			}
 		} else {
 			p.BudgetS = 3400
@@ -721,7 +744,26 @@ func init() {
 				mk("counter-2t-b5", 5, map[string]interface{}{"type": "counter", "threads": 2}),
 				mk("counter-3t-remote-pack-b3", 3, map[string]interface{}{"type": "counter", "threads": 3, "remote": true, "packer": true}),
 				mk("list-3t-remote-pack-b3", 3, map[string]interface{}{"type": "list", "threads": 3, "remote": true, "packer": true}),
+				mk("counter-2t-stmt-b4", 4, map[string]interface{}{"type": "counter", "threads": 2, "stmt": true}),
+				mk("list-2t-stmt-b4", 4, map[string]interface{}{"type": "list", "threads": 2, "stmt": true}),
+				mk("counter-3t-remote-pack-stmt-b2", 2, map[string]interface{}{"type": "counter", "threads": 3, "remote": true, "packer": true, "stmt": true}),
+				mk("list-3t-remote-stmt-b2", 2, map[string]interface{}{"type": "list", "threads": 3, "remote": true, "stmt": true}),
+				mkd("list-positional-3t-remote-pack-b4", 4, map[string]interface{}{"type": "list", "threads": 3, "remote": true, "packer": true}),
+				mkd("docarr-positional-3t-remote-pack-b4", 4, map[string]interface{}{"type": "docarr", "threads": 3, "remote": true, "packer": true}),
+				mkd("list-positional-3t-remote-stmt-b2", 2, map[string]interface{}{"type": "list", "threads": 3, "remote": true, "stmt": true}),
+				mks("sync-counter-3u-2s-b4", 4, map[string]interface{}{"type": "counter", "users": 3, "syncs": 2, "pending": 1}),
+				mks("sync-list-3u-2s-b3", 3, map[string]interface{}{"type": "list", "users": 3, "syncs": 2, "pending": 2}),
+				mks("sync-counter-2u-2s-stmt-b2", 2, map[string]interface{}{"type": "counter", "users": 2, "syncs": 2, "pending": 1, "stmt": true}),
+				mks("sync-list-2u-2s-stmt-b2", 2, map[string]interface{}{"type": "list", "users": 2, "syncs": 2, "pending": 1, "stmt": true}),
+				mks("sync-counter-2u-1s-stmt-b3", 3, map[string]interface{}{"type": "counter", "users": 2, "syncs": 1, "pending": 1, "stmt": true}),
 			}
+		}
+		if tier == "quick" {
+			p.Runs = append(p.Runs, race("free-running-race-counter", 50, map[string]interface{}{"type": "counter", "threads": 3, "remote": true, "packer": true}),
+				race("free-running-race-list", 50, map[string]interface{}{"type": "list", "threads": 3, "remote": true, "packer": true}))
+		} else {
+			p.Runs = append(p.Runs, race("free-running-race-counter", 2000, map[string]interface{}{"type": "counter", "threads": 3, "remote": true, "packer": true}),
+				race("free-running-race-list", 2000, map[string]interface{}{"type": "list", "threads": 3, "remote": true, "packer": true}))
 		}
 		return p
 	}
